@@ -26,6 +26,7 @@ struct Ctx<'a> {
     /// ATTACK_REF_LIFETIME questions, so it never holds enough entries to alias with itself
     attack_ref: MoveGenerator,
     attack_ref_asked: u64,
+    twins: u64,
 }
 
 const ATTACK_REF_LIFETIME: u64 = 2000;
@@ -33,8 +34,14 @@ const ATTACK_REF_LIFETIME: u64 = 2000;
 impl<'a> Ctx<'a> {
     /// returns the long-lived generator's move list (the walk continues with it, as real callers do)
     fn node(&mut self, board: &mut Board) -> Option<chess::move_generator::ChessMoveList> {
-        self.nodes += 1;
         let side = board.turn();
+        self.node_as(board, side)
+    }
+
+    /// the question as the library's own traversals put it: the player is passed explicitly and need not be
+    /// `board.turn()` (count_positions, the legality filter and the check / mate annotation never toggle the turn)
+    fn node_as(&mut self, board: &mut Board, side: Color) -> Option<chess::move_generator::ChessMoveList> {
+        self.nodes += 1;
         // now and then the long-lived generator has just been asked the ANNOTATING question about this very
         // position (as notation listing, book selection and every search node do): the plain answer that
         // follows must still be the brand-new generator's answer, annotation field included
@@ -75,7 +82,7 @@ impl<'a> Ctx<'a> {
         // logged for TLC, all of them are counted in the summary)
         if (differs && self.move_diffs <= 300) || self.rng.chance(1, self.sample_one_in) {
             writeln!(self.out, "{}", json!({"ev": "Q", "what": "moves", "pos": pos.to_json(), "key": limbs(board.current_position_hash()),
-                "side": pos.turn, "long": with_eff(&a), "fresh": with_eff(&b)})).unwrap();
+                "side": turn_code(side), "long": with_eff(&a), "fresh": with_eff(&b)})).unwrap();
             self.logged += 1;
         }
         // every node: the long-lived generator's attack maps (both colours) against a generator that is at most
@@ -122,6 +129,42 @@ impl<'a> Ctx<'a> {
             }
         }
         Some(long)
+    }
+
+    /// perft-shaped walk that leaves `board.turn()` alone, as `count_positions_inner` does. At every promotion the
+    /// long-lived generator is first asked about the TWIN of the position the promotion leads to (same placement,
+    /// the promoted piece in the other colour, set up from scratch): two positions that differ in placement and
+    /// must not share an answer, whichever way the board got its key
+    fn tree_untoggled(&mut self, board: &mut Board, player: Color, depth: u32) {
+        let moves = match self.node_as(board, player) {
+            Some(m) => m,
+            None => return,
+        };
+        if depth == 0 {
+            return;
+        }
+        for m in moves.iter() {
+            if guarded(|| m.apply(board).is_ok()) != Ok(true) {
+                self.panics += 1;
+                return;
+            }
+            if matches!(m, chess::chess_move::chess_move::ChessMove::PawnPromotion(_)) && self.twins < 400 {
+                self.twins += 1;
+                let mut twin = Pos::of_board(board);
+                let to = m.to_square().0.trailing_zeros() as usize;
+                if twin.b[to] != 0 {
+                    twin.b[to] = if twin.b[to] <= 6 { twin.b[to] + 6 } else { twin.b[to] - 6 };
+                    let mut tb = twin.setup();
+                    self.node_as(&mut tb, Color::White);
+                    self.node_as(&mut tb, Color::Black);
+                }
+            }
+            self.tree_untoggled(board, player.opposite(), depth - 1);
+            if guarded(|| m.undo(board).is_ok()) != Ok(true) {
+                self.panics += 1;
+                return;
+            }
+        }
     }
 
     fn tree(&mut self, board: &mut Board, depth: u32) {
@@ -176,6 +219,7 @@ pub fn main(args: &[String]) {
         panics: 0,
         attack_ref: MoveGenerator::with_cache_capacity(1),
         attack_ref_asked: 0,
+        twins: 0,
     };
     // (i) perft-shaped walks: the start position (contains 1.a4 h6 2.a5 b5 / 1.a4 b5 2.a5 h6 at depth 4) and seeds
     let mut b = Board::starting_position();
@@ -185,6 +229,14 @@ pub fn main(args: &[String]) {
         let mut b = p.setup();
         // the first few catalogue seeds (the perft suite) are walked one ply deeper
         cx.tree(&mut b, if i >= 1 && i <= deep { seed_depth + 1 } else { seed_depth });
+    }
+    // (i') the same shape without toggling the turn, from the promotion seeds (both colours promote while the board
+    // says it is the other side's move)
+    for p in seeds.iter().filter(|p| (48..56).any(|i| p.b[i] == 1) || (8..16).any(|i| p.b[i] == 7)).take(12) {
+        let mut b = p.setup();
+        let t = b.turn();
+        cx.tree_untoggled(&mut b, t, 2);
+        cx.tree_untoggled(&mut b, t.opposite(), 2);
     }
     // (ii) random games with backtracking and revisits
     for g in 0..games {
